@@ -129,7 +129,10 @@ def check(case, acc):
         acc.fail("operand-modified", rows, post)
 
 
-VIEW_KINDS = ["", "_perm", "_colrev", "_colstep"]
+VIEW_KINDS = ["", "_perm", "_colrev", "_colstep", "_cs0", "_cs1", "_cs2", "_cs3"]
+# receivers that are column slices of the case's array with an explicit / out-of-range start or stop and a negative step: the truth is
+# the same Python slice applied to every row
+COLSLICES = {"_cs0": slice(1, None, -1), "_cs1": slice(2, None, -1), "_cs2": slice(None, -9, -1), "_cs3": slice(-9, None, 1)}
 
 
 def _pending_view(kind, rows, dt):
@@ -162,7 +165,17 @@ def _check_seq(acc, case, flat, rows, cols, ra):
     lens, dt, k, op = case
     acc.feature("same_object_sequence")
     vkind = op[len("seq_view"):] if op.startswith("seq_view") else None
-    if vkind is not None:
+    if vkind in COLSLICES:
+        s = COLSLICES[vkind]
+        parent_rows = rows
+        rows = [r[s] for r in parent_rows]
+        lens = [len(r) for r in rows]
+        if not any(lens):
+            return acc.undefined()
+        cols = [[r[j] for r in rows if len(r) > j] for j in range(max(lens))]
+        mkp = lambda: RaggedArray(np.array([v for r in parent_rows for v in r], dtype=dt), [len(r) for r in parent_rows])
+        ra = mkp()[:, s]
+    elif vkind is not None:
         ra = _pending_view(vkind, rows, dt)
     m = len(cols)
     colv = lambda j: ("A", (len(cols[j]),), tuple(pyval(x) for x in cols[j]))
@@ -177,7 +190,7 @@ def _check_seq(acc, case, flat, rows, cols, ra):
     means = ("A", (m,), tuple(pyval(sum(c)) / len(c) for c in cols))
     if dt == "int64":
         # exact in float64 for these small integers; the FIRST thing asked of a second, equal object
-        ra2 = _pending_view(vkind, rows, dt) if vkind is not None else RaggedArray(flat.copy(), list(lens))
+        ra2 = (mkp()[:, s] if vkind in COLSLICES else _pending_view(vkind, rows, dt)) if vkind is not None else RaggedArray(flat.copy(), list(lens))
         steps = [("mean0 first", lambda: ra2.mean(axis=0), means), ("col_counts after mean", lambda: ra2.col_counts(), counts)] + steps + \
                 [("mean0", lambda: ra.mean(axis=0), means)]
     for name, f, exp in steps:
